@@ -1,4 +1,9 @@
 import CattrsModel.GenHook.ForbidLemmas
+import CattrsModel.GenHook.NestedForbid3
+import CattrsModel.GenHook.NestedInert
+import CattrsModel.GenHook.TaggedCompose
+import CattrsModel.GenHook.TDLemmas2
+import CattrsModel.Props.C13
 /-!
 # C10 — `forbid_extra_keys` rejects exactly the unknown keys; without it extras are inert
 
@@ -169,5 +174,154 @@ theorem C10_typeddict_not_inert_witness :
 example : hstTDWith true C10Ex.idSt10 0 (C10Ex.exTD10 true) (.dict [(.str "a", .int 1), (.str "zzz", .int 5)])
     = .error (.cve [(none, .extra 0 [.str "zzz"])]) := by rfl
 end Examples
+
+/-! ## unbounded nesting: the composition `stTy`
+
+`stTy g n` ties the structure hooks of the class table `g` together through the field types (`n` = recursion budget;
+per-class `forbid` flags, per-class templates, the converter's `detailed_validation` for collections).  `g.off` is the
+same table with every `forbid` flag off.  `hits g n t p`: some forbidding class position of the payload `p` -- reached
+from the root through the entries of handled attributes, optionals, wrappers and collection items, at any depth --
+has a key outside its accepted keys.  No hypothesis on the payload, the customisations or the budget. -/
+
+/-- **`forbid_extra_keys` at any nesting depth.**  Structuring succeeds with result `y` iff it succeeds with result `y`
+with forbidding switched off everywhere and no forbidding class position of the payload, at any depth, got an extra
+key -- for every class table, type, payload (extras injected at any set of positions), template mix and budget. -/
+theorem C10_forbid_iff_nested (g : GWorld) (n : Nat) (t : Option Ty) (p y : Obj) :
+    stTy g n t p = .ok y ↔ (stTy g.off n t p = .ok y ∧ hits g n t p = false) :=
+  forbid_iff_nested g n t p y
+
+/-- on a valid payload (it structures with forbidding off): **fails iff some forbidding position got an extra key** -/
+theorem C10_forbid_fails_iff_nested (g : GWorld) (n : Nat) (t : Option Ty) (p y : Obj)
+    (hvalid : stTy g.off n t p = .ok y) :
+    (∃ e, stTy g n t p = .error e) ↔ hits g n t p = true := by
+  constructor
+  · rintro ⟨e, he⟩
+    cases hh : hits g n t p with
+    | true => rfl
+    | false =>
+      have := (forbid_iff_nested g n t p y).mpr ⟨hvalid, hh⟩
+      rw [this] at he; cases he
+  · intro hh
+    cases hr : stTy g n t p with
+    | error e => exact ⟨e, rfl⟩
+    | ok y' =>
+      have := ((forbid_iff_nested g n t p y').mp hr).2
+      rw [hh] at this; cases this
+
+/-- **Inertness at any nesting depth**: when no hook of the table forbids extra keys, two payloads that agree on what
+the hooks read (`sameRead`: at every attrs / dataclass / NamedTuple position the entries under the accepted keys,
+recursively; anything else in those dicts is free) have the same outcome, value or error.  TypedDict positions are
+excluded from the freedom (`sameRead` demands equality there): recorded finding F9. -/
+theorem C10_inert_nested (g : GWorld) (hnf : g.noForbid = true) (n : Nat) (t : Option Ty) (p q : Obj)
+    (h : sameRead g n t p q) : stTy g n t p = stTy g n t q :=
+  inert_nested g hnf n t p q h
+
+section NestedExamples
+/-- dataclass 1 `{inner: list[C0], n: int = 0}` (not forbidding) over attrs class 0 `{a: int → 'k'}` (forbidding) -/
+def C10Ex.nestWorld : GWorld :=
+  { detailed := true, enums := [],
+    classes :=
+      [ { kind := .attrs, frozen := false, hc := { C10Ex.exHc10 false with forbid := true },
+          attrs := [C10Ex.exAttr10 "a" .int .none] },
+        { kind := .dataclass, frozen := false, hc := { C10Ex.exHc10 true with ovs := [] },
+          attrs := [C10Ex.exAttr10 "inner" (.coll .list (.cls 0)) .none, C10Ex.exAttr10 "n" .int (.const (.int 0))] } ] }
+
+/-- an extra key two levels down, under a forbidding class, is a hit; the same key at the non-forbidding top is not -/
+example : hits C10Ex.nestWorld 9 (some (.cls 1))
+    (.dict [(.str "inner", .coll .list [.dict [(.str "k", .int 1)], .dict [(.str "k", .int 2), (.str "a", .int 3)]])]) = true := by
+  decide
+example : hits C10Ex.nestWorld 9 (some (.cls 1))
+    (.dict [(.str "zzz", .int 5), (.str "inner", .coll .list [.dict [(.str "k", .int 1)]])]) = false := by decide
+/-- non-vacuity of `C10_inert_nested`: with forbidding off, unknown entries (string or not) are free -/
+example : sameRead C10Ex.nestWorld.off 2 (some (.cls 0)) (.dict [(.str "k", .int 1)])
+    (.dict [(.int 7, .none), (.str "k", .int 1), (.str "a", .int 3)]) := by
+  refine ⟨_, _, rfl, rfl, ?_⟩
+  intro a ha _
+  have : a = C10Ex.exAttr10 "a" .int .none := by simpa using ha
+  subst this
+  exact Or.inr ⟨.int 1, .int 1, by decide, by decide, rfl⟩
+example : C10Ex.nestWorld.off.noForbid = true := by decide
+end NestedExamples
+
+/-! ## tagged unions on a forbidding converter: the tag key is not an extra
+
+`configure_tagged_union` (model `Tagged/Model.lean`, property C13) composed with the generated member hooks:
+`tagHookSt U (memberHook st cls true)` is the structure hook the strategy installs on a converter with
+`forbid_extra_keys=True` whose class hooks are the forbidding generated hooks (`st`: handlers of the attribute types,
+arbitrary).  `U.forbid = true`: the strategy read the same converter option. -/
+
+/-- **Any payload carrying a member's tag** (tag key at any position, any further keys): the strategy hands the member's
+hook a copy *without the tag key* -- the outcome is exactly the outcome of the member's forbidding hook on the payload
+minus the tag. -/
+theorem C10_tag_reaches_member (U : Tagged.TU) (st : StFn) (cls : Nat → GCls)
+    (hf : U.forbid = true) (hinj : Tagged.InjectiveOn U.tag U.members)
+    (pkvs : List (Obj × Obj)) (t : Obj) (c : Nat) (hc : c ∈ U.members)
+    (ht : dlookup pkvs U.key = some t) (hh : Tagged.tagHashable t = true) (heq : Obj.pyEq (U.tag c) t = true) :
+    tagHookSt U (memberHook st cls true) (.dict pkvs) = hstClsWith true st c (cls c) (.dict (dictDel pkvs U.key)) := by
+  unfold tagHookSt
+  rw [C13_known_tag_injective U hinj pkvs t c hc ht hh heq, hf]
+  rfl
+
+/-- **The tag is not an extra.**  Payload = the member's dict plus the tag: accepted iff the member's forbidding hook
+accepts the member's dict, with the same result (or the same error). -/
+theorem C10_tag_not_extra (U : Tagged.TU) (st : StFn) (cls : Nat → GCls)
+    (hf : U.forbid = true) (hinj : Tagged.InjectiveOn U.tag U.members) (hcfg : Tagged.configureOk U = true)
+    (kvs : List (Obj × Obj)) (c : Nat) (hc : c ∈ U.members) (hfresh : dlookup kvs U.key = none) :
+    tagHookSt U (memberHook st cls true) (.dict (dictSet kvs U.key (U.tag c))) = hstClsWith true st c (cls c) (.dict kvs) := by
+  rw [Tagged.dictSet_fresh' hfresh]
+  rw [C10_tag_reaches_member U st cls hf hinj _ (U.tag c) c hc (Tagged.dlookup_append_fresh hfresh _)
+    (Tagged.configureOk_hashable hcfg hc) (Obj.pyEq_refl _), Tagged.dictDel_append_fresh hfresh]
+
+/-- **Anything else is an extra, and only that is reported.**  A payload carrying member `c`'s tag whose remaining
+entries are valid for `c` (they structure with the option off) but contain keys outside `c`'s accepted keys is rejected
+with a `ForbiddenExtraKeysError` naming class `c` and exactly those keys -- the tag key is never among them. -/
+theorem C10_tag_extras_reported (U : Tagged.TU) (st : StFn) (cls : Nat → GCls)
+    (hf : U.forbid = true) (hinj : Tagged.InjectiveOn U.tag U.members)
+    (pkvs : List (Obj × Obj)) (t : Obj) (c : Nat) (y : Obj) (hc : c ∈ U.members)
+    (ht : dlookup pkvs U.key = some t) (hh : Tagged.tagHashable t = true) (heq : Obj.pyEq (U.tag c) t = true)
+    (hnd : nodupPy (keysOf pkvs) = true)
+    (hvalid : hstClsWith false st c (cls c) (.dict (dictDel pkvs U.key)) = .ok y)
+    (hex : extraKeys (allowedKeys (cls c).hc (cls c).attrs) (dictDel pkvs U.key) ≠ []) :
+    tagHookSt U (memberHook st cls true) (.dict pkvs)
+        = .error (forbidReport (cls c).hc.detailed c (extraKeys (allowedKeys (cls c).hc (cls c).attrs) (dictDel pkvs U.key)))
+    ∧ U.key ∉ extraKeys (allowedKeys (cls c).hc (cls c).attrs) (dictDel pkvs U.key) := by
+  refine ⟨?_, ?_⟩
+  · rw [C10_tag_reaches_member U st cls hf hinj pkvs t c hc ht hh heq]
+    exact C10_forbid_reports st c (cls c) _ y hvalid hex
+  · intro hmem
+    have hk : U.key ∈ keysOf (dictDel pkvs U.key) := by
+      simp only [extraKeys, List.mem_filter] at hmem; exact hmem.1
+    have hnone : dlookup (dictDel pkvs U.key) U.key = none := dlookup_dictDel_same hnd U.tagName
+    rw [dlookup_none_iff, memPy_of_mem hk] at hnone
+    cases hnone
+
+/-- **Default member.**  With a default `d` configured, a dict payload whose tag is missing, or hashable and `==` to no
+member's tag, is structured by `d`'s forbidding hook on the payload minus the tag key: the tag is not an extra there
+either, and every other unknown key is. -/
+theorem C10_tag_default_member (U : Tagged.TU) (st : StFn) (cls : Nat → GCls) (d : Nat)
+    (hf : U.forbid = true) (hd : U.default = some d) (pkvs : List (Obj × Obj))
+    (hmiss : ∀ t, dlookup pkvs U.key = some t →
+      Tagged.tagHashable t = true ∧ Tagged.lastMember U.tag t U.members = none) :
+    tagHookSt U (memberHook st cls true) (.dict pkvs) = hstClsWith true st d (cls d) (.dict (dictDel pkvs U.key)) := by
+  unfold tagHookSt
+  rw [C13_default U pkvs hmiss, hd, hf]
+  rfl
+
+section TagExamples
+def C10Ex.tagU (dflt : Option Nat) : Tagged.TU :=
+  { members := [0, 1], tag := fun c => if c = 0 then .str "A" else .str "B", tagName := "_type", default := dflt, forbid := true }
+def C10Ex.tagCls : Nat → GCls := fun _ => C10Ex.exCls10 false
+
+/-- non-vacuity: payload of member 1 + tag is accepted; with a further key it is rejected and exactly that key is reported -/
+example : tagHookSt (C10Ex.tagU none) (memberHook C10Ex.idSt10 C10Ex.tagCls true) (.dict [(.str "k", .int 1), (.str "_type", .str "B")])
+    = .ok (.inst 1 [("a", .int 1), ("b", .int 2)]) := by rfl
+example : tagHookSt (C10Ex.tagU none) (memberHook C10Ex.idSt10 C10Ex.tagCls true)
+    (.dict [(.str "_type", .str "B"), (.str "k", .int 1), (.str "zzz", .int 5)]) = .error (.extra 1 [.str "zzz"]) := by rfl
+/-- default member 0: unknown tag / no tag -/
+example : tagHookSt (C10Ex.tagU (some 0)) (memberHook C10Ex.idSt10 C10Ex.tagCls true) (.dict [(.str "k", .int 1), (.str "_type", .str "nope")])
+    = .ok (.inst 0 [("a", .int 1), ("b", .int 2)]) := by rfl
+example : tagHookSt (C10Ex.tagU (some 0)) (memberHook C10Ex.idSt10 C10Ex.tagCls true) (.dict [(.str "k", .int 1)])
+    = .ok (.inst 0 [("a", .int 1), ("b", .int 2)]) := by rfl
+end TagExamples
 
 end CattrsModel
